@@ -11,7 +11,7 @@ from trie.exceptions import (
 from trie.fog import HexaryTrieFog, TrieFrontierCache
 
 from ..hexcommon import item_lists, literal_keys, resolve_val, valspecs
-from ..util import Info, Raised, bytes_of_nibbles, expect, expect_eq, impl, nibbles_of
+from ..util import Info, Raised, as_nibbles, bytes_of_nibbles, expect, expect_eq, impl, nibbles_of
 
 ID = "C09"
 LEVEL = "exploration"
@@ -88,7 +88,7 @@ def strategy(tier):
 
 
 def _tt(x):
-    return tuple(int(i) for i in x)
+    return as_nibbles("well-formed-result", x, "nibbles in a walk result")
 
 
 def run_case(case):
